@@ -460,6 +460,8 @@ Fixpoint phist_spec (mx : Z) (past : list pstep) (l : list pstep) : bool :=
          ok_end (latest_soa_end mx past) && forallb (fun o => ok_end (latest_end mx past o)) needed
          && match eo with
             | Some x => forallb (fun o => match latest_end mx past o with Some y => x <=? y | None => false end) needed
+                        (* ... and no later than the end of the SOA piece the answer carries *)
+                        && match latest_soa_end mx past with Some y => x <=? y | None => false end
             | None => false
             end)
       && phist_spec mx (st :: past) r
